@@ -12,18 +12,27 @@ def GoodCtl (P : Problem S U δ) (draws : List (Draw S U)) (u : U) (k : Nat) : P
     (if P.intermediate then k = 1 else (P.minSteps ≤ k ∧ k ≤ k0))
 
 /-- motion `m` at index `i`: a valid start state, or the exact, all-valid propagation of an
-earlier motion under a scripted control -/
-def GoodMotion (P : Problem S U δ) (starts : List S) (draws : List (Draw S U))
+earlier motion under a control/step count accepted by `G` (generic over the planner) -/
+def GoodMotionG (step : S → U → S) (valid : S → Bool) (starts : List S) (G : U → Nat → Prop)
     (tree : Array (Motion S U)) (i : Nat) (m : Motion S U) : Prop :=
-  (m.parent = none ∧ m.state ∈ starts ∧ P.valid m.state = true) ∨
+  (m.parent = none ∧ m.state ∈ starts ∧ valid m.state = true) ∨
   (∃ p pm, m.parent = some p ∧ p < i ∧ tree[p]? = some pm ∧
-    m.state = propagate P.step pm.state m.control m.steps ∧
-    (∀ j, 1 ≤ j → j ≤ m.steps → P.valid (propagate P.step pm.state m.control j) = true) ∧
-    GoodCtl P draws m.control m.steps)
+    m.state = propagate step pm.state m.control m.steps ∧
+    (∀ j, 1 ≤ j → j ≤ m.steps → valid (propagate step pm.state m.control j) = true) ∧
+    G m.control m.steps)
 
-def TreeInv (P : Problem S U δ) (starts : List S) (draws : List (Draw S U))
+def TreeInvG (step : S → U → S) (valid : S → Bool) (starts : List S) (G : U → Nat → Prop)
     (tree : Array (Motion S U)) : Prop :=
-  ∀ i m, tree[i]? = some m → GoodMotion P starts draws tree i m
+  ∀ i m, tree[i]? = some m → GoodMotionG step valid starts G tree i m
+
+/-- the RRT instance: the control is one of the scripted `sampleTo` draws -/
+abbrev GoodMotion (P : Problem S U δ) (starts : List S) (draws : List (Draw S U))
+    (tree : Array (Motion S U)) (i : Nat) (m : Motion S U) : Prop :=
+  GoodMotionG P.step P.valid starts (GoodCtl P draws) tree i m
+
+abbrev TreeInv (P : Problem S U δ) (starts : List S) (draws : List (Draw S U))
+    (tree : Array (Motion S U)) : Prop :=
+  TreeInvG P.step P.valid starts (GoodCtl P draws) tree
 
 def LoopInv (P : Problem S U δ) (st : LoopSt S U δ) : Prop :=
   (∀ i, st.solution = some i → ∃ m, st.tree[i]? = some m ∧ (P.goal m.state).1 = true) ∧
@@ -41,28 +50,34 @@ theorem getElem?_push_lt {α : Type} (a : Array α) (x : α) (i : Nat) (h : i < 
     (a.push x)[i]? = a[i]? := by
   rw [Array.getElem?_push, if_neg (by omega)]
 
-theorem goodMotion_push (P : Problem S U δ) (starts : List S) (draws : List (Draw S U))
+theorem goodMotionG_push (step : S → U → S) (valid : S → Bool) (starts : List S) (G : U → Nat → Prop)
     (tree : Array (Motion S U)) (x : Motion S U) (i : Nat) (m : Motion S U) (hi : i ≤ tree.size)
-    (h : GoodMotion P starts draws tree i m) : GoodMotion P starts draws (tree.push x) i m := by
+    (h : GoodMotionG step valid starts G tree i m) : GoodMotionG step valid starts G (tree.push x) i m := by
   cases h with
   | inl h => exact Or.inl h
   | inr h =>
     obtain ⟨p, pm, h1, h2, h3, h4⟩ := h
     exact Or.inr ⟨p, pm, h1, h2, by rw [getElem?_push_lt _ _ _ (by omega)]; exact h3, h4⟩
 
-theorem treeInv_push (P : Problem S U δ) (starts : List S) (draws : List (Draw S U))
-    (tree : Array (Motion S U)) (m : Motion S U) (hT : TreeInv P starts draws tree)
-    (hm : GoodMotion P starts draws tree tree.size m) : TreeInv P starts draws (tree.push m) := by
+theorem treeInvG_push (step : S → U → S) (valid : S → Bool) (starts : List S) (G : U → Nat → Prop)
+    (tree : Array (Motion S U)) (m : Motion S U) (hT : TreeInvG step valid starts G tree)
+    (hm : GoodMotionG step valid starts G tree tree.size m) :
+    TreeInvG step valid starts G (tree.push m) := by
   intro i m' hi
   rw [Array.getElem?_push] at hi
   by_cases h : i = tree.size
   · rw [if_pos h] at hi
     cases Option.some.inj hi
     subst h
-    exact goodMotion_push P starts draws tree m _ m (Nat.le_refl _) hm
+    exact goodMotionG_push step valid starts G tree m _ m (Nat.le_refl _) hm
   · rw [if_neg h] at hi
-    exact goodMotion_push P starts draws tree m i m' (Nat.le_of_lt (lt_size_of_getElem? hi))
+    exact goodMotionG_push step valid starts G tree m i m' (Nat.le_of_lt (lt_size_of_getElem? hi))
       (hT i m' hi)
+
+theorem treeInv_push (P : Problem S U δ) (starts : List S) (draws : List (Draw S U))
+    (tree : Array (Motion S U)) (m : Motion S U) (hT : TreeInv P starts draws tree)
+    (hm : GoodMotion P starts draws tree tree.size m) : TreeInv P starts draws (tree.push m) :=
+  treeInvG_push P.step P.valid starts (GoodCtl P draws) tree m hT hm
 
 theorem roots_inv (P : Problem S U δ) (starts : List S) (draws : List (Draw S U)) :
     TreeInv P starts draws (roots P starts) := by
@@ -231,12 +246,12 @@ theorem pathOf_snoc (tree : Array (Motion S U)) (i p : Nat) (m : Motion S U)
       cases hpj : mj.parent <;> simp [hpj]
 
 /-- what a reported path satisfies (`sl` are its segments, `s0` its first state) -/
-theorem chain_path (P : Problem S U δ) (starts : List S) (draws : List (Draw S U))
-    (tree : Array (Motion S U)) (hT : TreeInv P starts draws tree) :
-    ∀ fuel i m, i < fuel → tree[i]? = some m →
+theorem chain_pathG (step : S → U → S) (valid : S → Bool) (starts : List S) (G : U → Nat → Prop)
+    (tree : Array (Motion S U)) (hT : TreeInvG step valid starts G tree) :
+    ∀ (fuel i : Nat) (m : Motion S U), i < fuel → tree[i]? = some m →
       ∃ s0 sl, pathOf tree (chain tree fuel i).reverse = ofSegs s0 sl ∧ s0 ∈ starts ∧
-        P.valid s0 = true ∧ ReplayOK P.step P.valid s0 sl ∧ endState s0 sl = m.state ∧
-        ∀ x ∈ sl, GoodCtl P draws x.1 x.2.1 := by
+        valid s0 = true ∧ ReplayOK step valid s0 sl ∧ endState s0 sl = m.state ∧
+        ∀ x ∈ sl, G x.1 x.2.1 := by
   intro fuel
   induction fuel with
   | zero => intro i m h _; omega
@@ -264,6 +279,14 @@ theorem chain_path (P : Problem S U δ) (starts : List S) (draws : List (Draw S 
         · exact e6 x hx
         · cases List.mem_singleton.mp hx
           exact hctl
+
+theorem chain_path (P : Problem S U δ) (starts : List S) (draws : List (Draw S U))
+    (tree : Array (Motion S U)) (hT : TreeInv P starts draws tree) :
+    ∀ (fuel i : Nat) (m : Motion S U), i < fuel → tree[i]? = some m →
+      ∃ s0 sl, pathOf tree (chain tree fuel i).reverse = ofSegs s0 sl ∧ s0 ∈ starts ∧
+        P.valid s0 = true ∧ ReplayOK P.step P.valid s0 sl ∧ endState s0 sl = m.state ∧
+        ∀ x ∈ sl, GoodCtl P draws x.1 x.2.1 :=
+  chain_pathG P.step P.valid starts (GoodCtl P draws) tree hT
 
 theorem solve_inv (P : Problem S U δ) (starts : List S) (draws : List (Draw S U)) :
     Inv P starts draws
@@ -419,9 +442,9 @@ theorem solve_tree_inv (P : Problem S U δ) (starts : List S) (draws : List (Dra
     · split <;> exact h
 
 /-- every motion's state is valid (by induction on the index: a 0-step motion repeats its parent) -/
-theorem treeInv_valid (P : Problem S U δ) (starts : List S) (draws : List (Draw S U))
-    (tree : Array (Motion S U)) (hT : TreeInv P starts draws tree) :
-    ∀ (n i : Nat) (m : Motion S U), i < n → tree[i]? = some m → P.valid m.state = true := by
+theorem treeInvG_valid (step : S → U → S) (valid : S → Bool) (starts : List S) (G : U → Nat → Prop)
+    (tree : Array (Motion S U)) (hT : TreeInvG step valid starts G tree) :
+    ∀ (n i : Nat) (m : Motion S U), i < n → tree[i]? = some m → valid m.state = true := by
   intro n
   induction n with
   | zero => intro i m h _; omega
@@ -435,5 +458,10 @@ theorem treeInv_valid (P : Problem S U δ) (starts : List S) (draws : List (Draw
       cases hk : m.steps with
       | zero => exact ih p pm (by omega) hpm
       | succ k => exact hval (k + 1) (by omega) (by omega)
+
+theorem treeInv_valid (P : Problem S U δ) (starts : List S) (draws : List (Draw S U))
+    (tree : Array (Motion S U)) (hT : TreeInv P starts draws tree) :
+    ∀ (n i : Nat) (m : Motion S U), i < n → tree[i]? = some m → P.valid m.state = true :=
+  treeInvG_valid P.step P.valid starts (GoodCtl P draws) tree hT
 
 end OmplModel.CRRT
